@@ -256,9 +256,23 @@ func udpGroups(th bool) []*group {
 		noneIPSeeds = append(noneIPSeeds, cat(ad, []byte("reply")))
 		s5IPSeeds = append(s5IPSeeds, cat([]byte{0, 0, 0}, ad, []byte("reply")))
 	}
+	// size edges: valid datagrams whose payload length runs through every value around the largest an
+	// outbound client can carry for the address (the relay re-packs whatever length the peer chose; a
+	// packer's padding and size arithmetic sits exactly at that edge), up to what the receive buffer holds
+	var noneEdge, s5Edge [][]byte
+	for _, ad := range [][]byte{s5v4([4]byte{8, 8, 8, 8}, 53), s5v6(ip6doc, 53), s5dom("a", 53), s5v4([4]byte{8, 8, 8, 8}, 80), s5dom(name255, 53)} {
+		for n := 1040; n+len(ad)+3 <= udpRecvSize+2; n++ {
+			if n == 1200 && len(ad) < 200 {
+				n = 1330 // nothing changes between the long-domain edge and the short-address edge
+			}
+			pl := bytes.Repeat([]byte("e"), n)
+			noneEdge = append(noneEdge, cat(ad, pl))
+			s5Edge = append(s5Edge, cat([]byte{0, 0, 0}, ad, pl))
+		}
+	}
 	gs = append(gs, &group{
 		name: "ssnone-udp-server", desc: "direct.ShadowsocksNonePacketServerUnpacker in the NAT relay's buffer layout, then route, NewPacker, uplink re-pack for every outbound client, downlink pack",
-		parts:         append([]part{newAlpha("ssnone-udp-server/alpha", nil, nil, socksAlpha, 0, L), newAlpha("ssnone-udp-server/alpha-after-domain-header", []byte{3}, nil, socksAlpha, 0, L-1)}, seedFamily("ssnone-udp-server", nil, noneSeeds, th, 30)...),
+		parts:         append([]part{newAlpha("ssnone-udp-server/alpha", nil, nil, socksAlpha, 0, L), newAlpha("ssnone-udp-server/alpha-after-domain-header", []byte{3}, nil, socksAlpha, 0, L-1), &listPart{name: "ssnone-udp-server/size-edges", items: noneEdge}}, seedFamily("ssnone-udp-server", nil, noneSeeds, th, 30)...),
 		seedsMustPass: true,
 		run: func(w *worker, in []byte) {
 			a, n, st := refParseAddr(in)
@@ -272,7 +286,7 @@ func udpGroups(th bool) []*group {
 	})
 	gs = append(gs, &group{
 		name: "socks5-udp-server", desc: "direct.Socks5PacketServerUnpacker (RSV RSV FRAG + address), same relay steps",
-		parts:         append([]part{newAlpha("socks5-udp-server/alpha", nil, nil, socksAlpha, 0, L), newAlpha("socks5-udp-server/alpha-after-header", []byte{0, 0, 0}, nil, socksAlpha, 0, L)}, seedFamily("socks5-udp-server", nil, s5Seeds, th, 30)...),
+		parts:         append([]part{newAlpha("socks5-udp-server/alpha", nil, nil, socksAlpha, 0, L), newAlpha("socks5-udp-server/alpha-after-header", []byte{0, 0, 0}, nil, socksAlpha, 0, L), &listPart{name: "socks5-udp-server/size-edges", items: s5Edge}}, seedFamily("socks5-udp-server", nil, s5Seeds, th, 30)...),
 		seedsMustPass: true,
 		run: func(w *worker, in []byte) {
 			a, pl, ok := refSocks5Packet(in)
